@@ -477,14 +477,12 @@ func runCase(c Case) (res vt.Result, fail *vt.Fail) {
 			}
 			if op.Cancel > 0 {
 				// GC under a context that is already cancelled. With at least one tagged
-				// node the first thing GC does is a context-aware walk, so it must refuse
-				// and leave the store as it was (without any tag the store's bookkeeping
-				// is rebuilt before the context is looked at: not judged)
+				// node the first thing GC does is a context-aware walk, so it refuses and
+				// leaves the store as it was. Without any tag the store's bookkeeping is
+				// rebuilt (to nothing) before the context is looked at: a mismatch after
+				// that is attributed to its own root cause, and the history ends there.
 				named := 0
 				ociStore.Tags(ctx, "", func(ts []string) error { named += len(ts); return nil })
-				if named == 0 {
-					continue
-				}
 				cctx, cancel := context.WithCancel(ctx)
 				cancel()
 				var gerr error
@@ -496,6 +494,16 @@ func runCase(c Case) (res vt.Result, fail *vt.Fail) {
 					res.Classes = append(res.Classes, "gc-under-cancelled-context-succeeded")
 				} else {
 					res.Classes = append(res.Classes, "gc-under-cancelled-context-refused")
+				}
+				if named == 0 && gerr != nil {
+					if f := m.refresh(ctx, ociStore, d, when); f != nil {
+						return res, f
+					}
+					if f := checkPreds(ctx, current, d, m.Stored, when); f != nil {
+						return res, vt.Failf("C07/aborted-gc-forgets-stored-manifests", "%s: GC under a cancelled context returned %v after it had rebuilt its index (no tagged node), the blobs are all still there: %s", when, gerr, f.Msg)
+					}
+					res.Classes = append(res.Classes, "stopped-after-aborted-gc-without-tags")
+					return res, nil
 				}
 				break // judged below like any other step
 			}
